@@ -938,8 +938,8 @@ class Formatter:
 
             sections = [section for section in cp.sections() if match_path(source_file.as_posix(), section)]
             for f in fields(config):
-                if getattr(cp, f.name, None) is not None:
-                    continue  # value already set from higher file
+                if getattr(config, f.name, None) is not None:
+                    continue  # value already set by a closer file
 
                 getter = f.metadata['getter']
                 for section in sections:
